@@ -459,8 +459,21 @@ def check_map_fold(ctx, cfg):
                 wrapped = call is not None and ("A", ("adt", "core::result::Result", 0), (call.ret,))
                 c_ok = once and args_ok and call is not None and all(r["val"] == call.ret or (tryf and r["val"] == wrapped) for r in ca.returns)
             good = src_ok and init == ("V", "arg", 2) and c_ok and not bad_adaptors(it_)
+            det_ = "fold(iter over the whole source array (forward), init, cl): %s; init passed through: %s; closure = f(acc, read(slot)) once: %s" % (src_ok, init == ("V", "arg", 2), c_ok)
+            if not good and is_count_range(it_, N) and ca is not None:
+                # counting form: (0..N).fold(init, cl), the closure moving out the element the source consumer's own cursor designates (cursor 0
+                # at the start, advanced by one per call: the k-th call is f(acc, self[k]))
+                cr = cursor_reads(ctx, cfg, an, f, cv, owners)
+                if cr is not None and len(cr) == 1:
+                    (v, L, av), = cr.values()
+                    once, args_ok, call = check_f_call(ca, [("V", "arg", 2), v])
+                    wrapped = call is not None and ("A", ("adt", "core::result::Result", 0), (call.ret,))
+                    c_ok = bool(once and args_ok and call is not None and all(r["val"] == call.ret or (tryf and r["val"] == wrapped) for r in ca.returns))
+                    from_self = av == ("V", "arg", 1)
+                    good = c_ok and from_self and init == ("V", "arg", 2)
+                    det_ = "(0..N).fold(init, cl), the closure moving out the element the consumer's own cursor designates (consumer made from self, cursor 0 at the start): %s; init passed through: %s; closure = f(acc, that element) once: %s" % (from_self, init == ("V", "arg", 2), c_ok)
             ok = ok and good
-            dets.append("fold(iter over the whole source array (forward), init, cl): %s; init passed through: %s; closure = f(acc, read(slot)) once: %s" % (src_ok, init == ("V", "arg", 2), c_ok))
+            dets.append(det_)
         probs = pipelines_only(ctx, cfg, key, an, tuple(sorted({f.fn for f in fo})), unwrap=True)
         ok = ok and not probs
         ctx.ob(rule, key, ok, "; ".join(dets + probs) if (dets or probs) else "no fold found", at=b["at"], cfg=cfg)
